@@ -143,6 +143,13 @@ def cases(draw: Any) -> dict[str, Any]:
         script.append({"kind": kind, "pick": draw(st.integers(0, 3)), "value": draw(st.integers(0, 99)), "pipeline": draw(st.booleans()),
                        "chunks": draw(st.lists(st.integers(1, 4), min_size=1, max_size=3)),
                        "gaps": draw(st.lists(st.sampled_from([0.0, 0.01, 0.03, 0.2, 0.6]), min_size=1, max_size=3))})
+    if proto.get("shape") in ("prefix_types", "ext_sequence_same", "ext_sequence_mixed") and draw(st.integers(0, 3)) > 0:
+        # these shapes exist for peers that do not wait: make the first remote message a valid, pipelined one
+        lead = {"kind": "valid", "pick": draw(st.integers(0, 1)), "value": draw(st.integers(0, 99)), "pipeline": True,
+                "chunks": draw(st.lists(st.integers(1, 4), min_size=1, max_size=3)),
+                "gaps": draw(st.lists(st.sampled_from([0.0, 0.01, 0.03, 0.2]), min_size=1, max_size=3))}
+        follow = dict(lead, pick=draw(st.integers(0, 3)), pipeline=draw(st.booleans()))
+        script = [lead, follow] + script[:4]
     return {"proto": proto, "script": script, "seed": draw(st.integers(0, 10**6)), "gens": draw(st.sampled_from([9, 30]))}
 
 
